@@ -117,8 +117,6 @@ def run_unit(unit, threads=4, extra_args=None, rlimit=None):
     os.makedirs(WORK, exist_ok=True)
     gen_path = os.path.join(WORK, f"{unit}.rs")
     try:
-        splice._rsx_cache.clear()
-        splice._src_cache.clear()
         ur.log = splice.build(udir, gen_path)
     except splice.LostAnchor as e:
         ur.undecided.append(f"lost anchor: {e}")
@@ -129,6 +127,14 @@ def run_unit(unit, threads=4, extra_args=None, rlimit=None):
     segs = gmap["segments"]
     ur.trusted = scan_trusted(gen.decode("utf-8", "replace")) + ur.log["trusted"]
     ur.labels = sorted(set(re.findall(r"//#\s*(\S+)", gen.decode("utf-8", "replace"))))
+    # per-unit resource limit: `//@@ unit props=.. rlimit=N` (units whose functions carry many *known failing* obligations need a
+    # larger budget, because Verus re-solves once per reported error); never lower than the global default
+    try:
+        _m = re.search(r"//@@ unit\b[^\n]*\brlimit=(\d+)", open(os.path.join(udir, "unit.rs")).read(4000))
+        if _m and not rlimit:
+            rlimit = max(int(_m.group(1)), RLIMIT)
+    except Exception:
+        pass
     cmd = [VERUS, gen_path, "--error-format=json", "--output-json", "--time-expanded", "--multiple-errors", "200",
            "--rlimit", str(rlimit or RLIMIT), "--num-threads", str(threads)] + (extra_args or [])
     ur.cmd = " ".join(cmd)
@@ -272,9 +278,20 @@ def run_unit(unit, threads=4, extra_args=None, rlimit=None):
     return ur
 
 
+def ready():
+    """units / kani modules that are integrated (tools/ready.json); others are under construction and only run with --unit / krun"""
+    p = os.path.join(VERIF, "tools", "ready.json")
+    if os.environ.get("VERIF_INCLUDE_WIP") or not os.path.exists(p):
+        return None
+    return json.load(open(p))
+
+
 def units_for(prop):
     out = []
+    rd = ready()
     for u in sorted(os.listdir(os.path.join(VERIF, "units"))):
+        if rd is not None and u not in rd["units"]:
+            continue
         t = os.path.join(VERIF, "units", u, "unit.rs")
         if not os.path.exists(t):
             continue
